@@ -1,6 +1,8 @@
 use std::str::FromStr;
 
-use emmylua_parser::{LuaAstNode, LuaAstToken, LuaBlock, LuaChunk, LuaDocTagDiagnostic};
+use emmylua_parser::{
+    LuaAstNode, LuaAstToken, LuaBlock, LuaChunk, LuaComment, LuaDocTagDiagnostic, LuaSyntaxKind,
+};
 use rowan::TextRange;
 
 use crate::{
@@ -32,6 +34,10 @@ fn analyze_diagnostic_disable(
     diagnostic: LuaDocTagDiagnostic,
 ) -> Option<()> {
     let comment = analyzer.comment.clone();
+    if is_in_empty_body(&comment) {
+        // the enclosing block has no statements, there is nothing to disable
+        return Some(());
+    }
     let owner_block = comment.ancestors::<LuaBlock>().next()?;
     let owner_block_range = owner_block.get_range();
     let is_file_disable = owner_block.get_parent::<LuaChunk>().is_some();
@@ -67,6 +73,26 @@ fn analyze_diagnostic_disable(
     }
 
     Some(())
+}
+
+/// A body without statements has no block node, so a comment inside it (`do ---@diagnostic disable end`)
+/// is a direct child of the statement that owns the body. Its nearest block ancestor is the block
+/// *around* that statement, which is not the block the comment is written in.
+fn is_in_empty_body(comment: &LuaComment) -> bool {
+    comment.syntax().parent().is_some_and(|parent| {
+        matches!(
+            parent.kind().into(),
+            LuaSyntaxKind::DoStat
+                | LuaSyntaxKind::WhileStat
+                | LuaSyntaxKind::RepeatStat
+                | LuaSyntaxKind::IfStat
+                | LuaSyntaxKind::ElseIfClauseStat
+                | LuaSyntaxKind::ElseClauseStat
+                | LuaSyntaxKind::ForStat
+                | LuaSyntaxKind::ForRangeStat
+                | LuaSyntaxKind::ClosureExpr
+        )
+    })
 }
 
 fn analyze_diagnostic_disable_next_line(
